@@ -398,6 +398,16 @@ impl<H: Host> ZXController<H> {
         self.last_emulation_error.take()
     }
 
+    /// Writes a byte anywhere in the address space, ROM included (pokes), keeping the
+    /// screen cache in sync with RAM the same way `write_internal` does
+    pub(crate) fn force_write(&mut self, addr: u16, value: u8) {
+        self.memory.force_write(addr, value);
+        if let Page::Ram(bank) = self.memory.get_page(addr) {
+            self.screen
+                .update(addr % PAGE_SIZE as u16, bank as usize, value);
+        }
+    }
+
     pub(crate) fn refresh_memory_dependent_devices(&mut self) {
         match self.machine {
             ZXMachine::Sinclair48K => {
